@@ -11,6 +11,42 @@ VERIF = os.path.dirname(HERE)
 TECH = "explicit TLA+ spec checked by TLC + trace validation of the real code against it"
 
 CHECKS = {
+    "C01": dict(
+        engine="QtlPipeline",
+        level="model_checking",
+        text="QtlPipeline.tla models Pipeline::process as a small-step frame machine (Enter/Null/Leaf/Leave) next to an "
+             "independent big-step transcription of the statement; TLC proves they agree (Agree) and the frame-discipline "
+             "action properties on every wiring of <= 4 (thorough 5) entries over 2 (3) pipelines incl. sharing and nulls, plus "
+             "simulation of a 12-handler menu. The real classes are bound by trace validation: random trees built through the "
+             "public API, every observable handler call logged with the message state it sees, TLC replays the trace through "
+             "the spec's actions.",
+        design="5/C01",
+        note="Trusts TLC; built-in handlers are unobserved (effect inferred by the spec, checked at the next observation); "
+             "formatters returning a null string are excluded.",
+        technique=TECH,
+    ),
+    "C15": dict(
+        engine="QtlCategory",
+        level="model_checking",
+        text="QtlCategory.tla defines glob matching and ordered last-match-wins evaluation twice (fold, statement form); TLC "
+             "proves them equal and the glob algebra on an exhaustive small universe. The real CategoryFilter is bound through "
+             "QtlPipeline's 'cat' handler: rule lists rendered to text with separators/blanks/garbage, each probed with "
+             "(category, type) messages; TLC rejects the trace if a verdict differs from Verdict(rules, cat, type).",
+        design="5/C15",
+        note="The meaning of a rendered rule line follows the stated grammar (vlib/catrules.py); printable ASCII.",
+        technique=TECH,
+    ),
+    "C16": dict(
+        engine="QtlPipeline",
+        level="model_checking",
+        text="The decision rules LevelRule/DupRule/RegexRule/SeqRule are part of QtlPipeline.tla (checked exhaustively with the "
+             "pipeline model and by simulation over the full menu); the real LevelFilter, DuplicateFilter, RegExpFilter, "
+             "SeqNumberAttr run unobserved inside recorded traces (trees and 20-200 message sequences, handlers shared "
+             "between pipelines, confusable texts) and TLC checks every later observation against the rules.",
+        design="5/C16",
+        note="Regular expressions come from a menu whose meaning is definable on code-unit sequences.",
+        technique=TECH,
+    ),
     "C17": dict(
         engine="QtlSorted",
         level="model_checking",
